@@ -46,7 +46,9 @@ MODES = [BOOT, SIGNER, UIHB, "unknown", 7]
 ONB = [True, False, "error"]
 PLATS = ["Ledger", "SGX"]
 PINS = {"valid": "abcd1234", "short": "abc1234", "digits": "12345678", "nonalnum": "abcd123!",
-        "long": "abcd12345", "typed-valid": None, "typed-bad-then-valid": None}
+        "long": "abcd12345", "newline-tail": "abcdefg\n", "cr-tail": "abcdef1\r",
+        "nul-inside": "abc\x00efgh", "space-head": " bcdefgh", "unicode-digit": "abcdefg١",
+        "typed-valid": None, "typed-bad-then-valid": None}
 ANSWERS = {"yes": "yes\n", "Yes": "Yes\n", "no": "no\n", "n": "n\n",
            "other-then-yes": "maybe\nYES\n", "other-then-no": "x\nNo\n",
            "y-then-no": "y\nno\n", "empty-then-no": "\nn\n"}
